@@ -161,10 +161,11 @@ pub fn report_failures(ctx: &mut Ctx, sub: &str, batch_name: &str, failures: Vec
             ctx.report(sub, &Fail::new(sig0, describe(&f.case, f.script_idx, &f.mismatch)), serde_json::Value::Null);
             continue;
         }
-        if done.len() >= 3 {
+        if done.len() >= 2 {
             break;
         }
-        let rounds = tier.pick(6, 10);
+        // bounded delta debugging (DFIRSEM_NO_REDUCE=1 skips it, e.g. for mutation smoke runs)
+        let rounds = if std::env::var("DFIRSEM_NO_REDUCE").is_ok() { 0 } else { tier.pick(4, 8) };
         let (rp, rs, compiles) = reduce(
             &format!("{batch_name}-reduce"),
             &f.case.prog,
